@@ -70,6 +70,8 @@ package base
 
 //@ func (*ti/base.T).IsBuiltin
 //@   safe
+//@   transparent
+//@   ensures[C12] result == (t != nil && t.isBuiltin)
 
 //@ func (*ti/base.T).IsBuiltinMethod
 //@   safe
